@@ -153,7 +153,7 @@ theorem pe_step (G : GCtx) (hG : G.OK') (n : Nat) (hPE : ∀ m, m ≤ n → PE G
       | ok a =>
         obtain ⟨hfr1, mem1, hrun1, hml1⟩ := h1
         simp only []
-        have hsp1 := hsp.world st1 hfr1
+        have hsp1 := hsp.world st1 hfr1 hrun1.inv
         have hrel1 : StRel G.mod A.T A.N A.σ G.lim A.mp scopes vm st1.scopes mem1 := by
           rw [hfr1]; exact hrel.memLe hml1.cells
         have h2 := ihn A hA r st1 (ip + nI CA.1) (⟨a, none⟩ :: stk) mem1 CA.2 scopes vm hr hwr hTr (hCB ▸ hpB)
@@ -167,7 +167,7 @@ theorem pe_step (G : GCtx) (hG : G.OK') (n : Nat) (hPE : ∀ m, m ≤ n → PE G
           obtain ⟨hfr2, mem2, hrun2, hml2⟩ := h2
           simp only []
           have hrun12 := (hrun1.trans hrun2).cast (Nat.add_assoc ip _ _)
-          have hsp2 := hsp1.world st2 hfr2
+          have hsp2 := hsp1.world st2 hfr2 hrun2.inv
           have ha := fun it_ => exec_arith G.code G.lim (baseOf (withIt G.s it_) A.fn A.rest A.mp st2.world) ⟨A.fn, 0⟩
             A.rest A.c A.σ A.lab
             rfl hA.code op sp a b none none st2 (ip + (nI CA.1 + nI CB.1)) stk mem2 hlog
@@ -244,7 +244,7 @@ theorem pe_step (G : GCtx) (hG : G.OK') (n : Nat) (hPE : ∀ m, m ≤ n → PE G
         | error c1 => exact h1.error_n _
         | ok a =>
           obtain ⟨hfr1, mem1, hrun, hml1⟩ := h1
-          have hsp1 := hsp.world st1 hfr1
+          have hsp1 := hsp.world st1 hfr1 hrun.inv
           have hrel1 : StRel G.mod A.T A.N A.σ G.lim A.mp scopes vm st1.scopes mem1 := by
             rw [hfr1]; exact hrel.memLe hml1.cells
           cases a <;> try trivial
@@ -345,7 +345,7 @@ theorem pe_step (G : GCtx) (hG : G.OK') (n : Nat) (hPE : ∀ m, m ≤ n → PE G
         | ok vals =>
           obtain ⟨hfr1, mem1, hrun1, hml1⟩ := h1
           simp only []
-          have hsp1 := hsp.world st1 hfr1
+          have hsp1 := hsp.world st1 hfr1 hrun1.inv
           rw [applyFn_fn _ _ _ _ _ _ _ fd hfind]
           have h2 := hPCall a (by omega) name fd I stmts e' hK hfind hFn hgh sp vals st1
             (⟨A.fn, ip + nI CA.1 + 1⟩ :: A.rest) A.mp stk mem1 hsp1 (by have := hA.lo; omega)
@@ -377,14 +377,15 @@ theorem pe_step (G : GCtx) (hG : G.OK') (n : Nat) (hPE : ∀ m, m ≤ n → PE G
       · rw [h]; trivial
       · rw [h]
         simp only []
-        have hpush := Runs.of_exec1 (fr := G.fr) (mem := mem) (fun it_ k => mkS_cloningPush_emptyList G.code G.lim
+        have hpush := Runs.of_exec1W (fr := G.fr) (mem := mem) (fun it_ k => mkS_cloningPush_emptyList G.code G.lim
           (withIt G.s it_) A.fn ip A.rest A.mp k stk mem.cells st.world A.c hA.code sp ipush)
+          (fun hi => hi.push _ (fun fs h => by cases h))
         have hels := hrun st.heap st.out []
         rw [List.nil_append] at hels
         exact ⟨rfl, mem, (hpush.trans hels).cast (by omega), MemLe.refl _ _ _⟩
     case obj sp ty fs =>
       simp only [Bool.and_eq_true, decide_eq_true_eq] at hok
-      obtain ⟨hat, hnd⟩ := hok
+      obtain ⟨⟨hat, hnd⟩, hnames⟩ := hok
       simp only [Frag.varsGE] at hres
       simp only [Frag.namesGE, Frag.varsGE, Frag.callsGE, List.append_nil] at hT
       simp only [cgE] at hpl ⊢
@@ -402,8 +403,13 @@ theorem pe_step (G : GCtx) (hG : G.OK') (n : Nat) (hPE : ∀ m, m ≤ n → PE G
           rw [List.map_map]; rfl
         have hmv : ((fs.map (·.1)).map fun k => (k, Val.null)) = fs.map fun f => (f.1, Val.null) := by
           rw [List.map_map]; rfl
-        have hpush := Runs.of_exec1 (fr := G.fr) (mem := mem) (fun it_ k => mkS_cloningPush_obj G.code G.lim
+        have hpush := Runs.of_exec1W (fr := G.fr) (mem := mem) (fun it_ k => mkS_cloningPush_obj G.code G.lim
           (withIt G.s it_) A.fn ip A.rest A.mp k stk mem.cells st.world A.c hA.code sp (fs.map (·.1)) (hmm ▸ ipush))
+          (fun hi => hi.push _ (fun fs' h => by
+            cases h
+            rw [hmv]
+            simp only [List.all_eq_true, Bool.and_eq_true, bne_iff_ne] at hnames
+            exact ⟨lookup_nulls fs "len" (fun f hf => (hnames f hf).1), lookup_nulls fs "push" (fun f hf => (hnames f hf).2)⟩))
         rw [hmv] at hpush
         have hels := hrun st.heap st.out [] hnd (fun _ _ h => by simp at h)
         rw [List.nil_append, List.nil_append] at hels
@@ -471,7 +477,7 @@ theorem pe_step (G : GCtx) (hG : G.OK') (n : Nat) (hPE : ∀ m, m ≤ n → PE G
       | ok cv =>
         obtain ⟨hfr1, mem1, hrun1, hml1⟩ := h1
         simp only []
-        have hsp1 := hsp.world st1 hfr1
+        have hsp1 := hsp.world st1 hfr1 hrun1.inv
         have hrel1 : StRel G.mod A.T A.N A.σ G.lim A.mp scopes vm st1.scopes mem1 := by
           rw [hfr1]; exact hrel.memLe hml1.cells
         have htest := armTests_run G A hA sp ⟨cv, none⟩ stk mem1 st1.world arms aft.2 (ip + nI CC.1) hlit
